@@ -492,7 +492,13 @@ def stored_state_obligations(prog, rule, sites, what, scalar_ok=True):
     from ..model import qual
     out = []
     for ci, fn, roots, paths in sites:
-        hits = [h for h in state_sinks(fn, roots) if paths is None or h[0] in paths]
+        methods = None
+        if ci is not None:
+            methods = {}
+            for c in reversed(prog.mro(ci)):
+                methods.update(c.methods)
+            methods.pop(fn.name, None)
+        hits = [h for h in state_sinks(fn, roots, methods=methods) if paths is None or h[0] in paths]
         if scalar_ok:
             hits = [h for h in hits if not _scalar_attr(prog, h[0])]
         msg = ""
@@ -500,10 +506,142 @@ def stored_state_obligations(prog, rule, sites, what, scalar_ok=True):
             pth, line, text = hits[0]
             msg = f"`{text}` (line {line}) updates `{pth}` in place (through a local alias / element / view): {what}"
         out.append(struct_ob(rule, qual(ci, fn) if ci is not None else fn.name, not hits, msg, ci.module.relpath if ci is not None else "",
-                             hits[0][1] if hits else fn.lineno, slots={"roots": sorted(roots), "sinks": [list(h) for h in hits]}))
+                             hits[0][1] if hits else fn.lineno, slots={"roots": sorted(roots), "sinks": [list(h) for h in hits]}, tier="E"))
     ex = ast.parse("def f(cls, priors):\n    v = priors[0].variables\n    for p in priors[1:]:\n        v += p.variables\n    return v\n").body[0]
     if not state_sinks(ex, {"priors": "priors"}):
         raise AnalysisError("stored-state analysis lost its positive example")
+    return out
+
+
+def scratch_owned_obligations(prog, rule, classes, what="a result that is kept (a memoised matrix, a table built at set-up) is changed by the "
+                              "computation that consumes it: the next evaluation starts from the changed value"):
+    """One obligation per method of the classes: every object the method updates in place (`K += S`, `x[i] = v`, `.sort()`,
+    out=) through a local name is its own scratch - not an object kept on the receiver and reached through an alias, an element,
+    a view or the result of one of the receiver's own methods.  Direct updates of the receiver's attributes (`self.n[i] += 1`) are
+    the class managing its own state and are not reported here."""
+    sites = []
+    for ci in classes:
+        for m, fn in ci.methods.items():
+            if fn.args.args and not any(U(d) in ("staticmethod", "classmethod") for d in fn.decorator_list):
+                sites.append((ci, fn, {fn.args.args[0].arg: "self"}, None))
+    out = []
+    for o in stored_state_obligations(prog, rule, sites, what):
+        if not o.ok:
+            sinks = [h for h in o.slots["sinks"] if not h[2].lstrip().startswith("self.")]
+            if not sinks:
+                o = struct_ob(rule, o.construct, True, "", o.file, o.line, slots={"roots": o.slots["roots"], "sinks": []}, tier="E")
+        out.append(o)
+    return out
+
+
+def current_state_obligations(prog, rule, classes, what):
+    """One obligation per method (of the classes) that contains a loop: no local computed BEFORE the loop from state the loop body
+    changes (directly, through the receiver's methods, or through the methods of a helper object the constructor fixes) is handed,
+    inside the loop and without being recomputed, to one of the receiver's own methods (engine E3, sa/effects.py)."""
+    from ..effects import Effects, stale_in_loops
+    from ..model import qual
+    out = []
+    eff = Effects(prog)
+    for ci in classes:
+        for m, fn in ci.methods.items():
+            if any(U(d) in ("staticmethod", "classmethod") for d in fn.decorator_list):
+                continue
+            hits, n_loops = stale_in_loops(prog, ci, fn, eff)
+            if not n_loops:
+                continue
+            msg = ""
+            if hits:
+                v, lline, dline, path, dtext, sink = hits[0]
+                msg = (f"`{dtext}` is computed before the loop at line {lline} from self.{'.'.join(path)}, which the loop body changes; the "
+                       f"loop then hands the old value to `{sink}` next to freshly read state: {what}")
+            out.append(struct_ob(rule, qual(ci, fn), not hits, msg, ci.module.relpath, hits[0][1] if hits else fn.lineno,
+                                 slots={"loops": n_loops, "stale": [h[0] for h in hits]}, tier="E"))
+    from ..effects import self_test
+    if not self_test():
+        raise AnalysisError("stale-state analysis lost its positive example")
+    return out
+
+
+def _identity_memo_hits(fn, stores, holder):
+    """Reasons why `fn` memoises on the IDENTITY of a mutable argument: the remembered key is the argument object itself (or a
+    weak reference to it) and / or the guard asks `is`, `id(..)`: after the caller edits that array in place the same object holds
+    other data and the remembered result is handed out for it.  `stores`: names of the remembered state (module globals / attributes of
+    `holder`)."""
+    params = {a.arg for a in fn.args.args + fn.args.kwonlyargs} - {holder}
+    why = []
+
+    def mentions_store(e):
+        for n in ast.walk(e):
+            if isinstance(n, ast.Name) and n.id in stores and holder is None:
+                return True
+            if isinstance(n, ast.Attribute) and isinstance(n.value, ast.Name) and n.value.id == holder and n.attr in stores:
+                return True
+        return False
+    # what is remembered
+    for st in ast.walk(fn):
+        if not isinstance(st, ast.Assign):
+            continue
+        for t in st.targets:
+            tn = t.id if isinstance(t, ast.Name) and holder is None else t.attr if isinstance(t, ast.Attribute) and isinstance(t.value, ast.Name) \
+                and t.value.id == holder else None
+            if tn not in stores:
+                continue
+            elts = st.value.elts if isinstance(st.value, (ast.Tuple, ast.List)) else [st.value]
+            for e in elts:
+                if isinstance(e, ast.Name) and e.id in params:
+                    pass      # whether a bare reference is a key or the payload is decided by the guard below
+                if isinstance(e, ast.Call) and U(e.func).split(".")[-1] in ("ref", "proxy", "id") and e.args and isinstance(e.args[0], ast.Name) \
+                        and e.args[0].id in params:
+                    why.append(f"`{U(st)[:100]}` remembers `{U(e)}` - the identity of the caller's object, not its contents")
+    # how the guard recognises "the same input"
+    for n in ast.walk(fn):
+        if isinstance(n, (ast.If, ast.IfExp, ast.While)) and mentions_store(n.test):
+            for c in ast.walk(n.test):
+                if isinstance(c, ast.Compare):
+                    sides = [c.left] + list(c.comparators)
+                    for op, a, b in zip(c.ops, sides, sides[1:]):
+                        if isinstance(op, (ast.Is, ast.IsNot)):
+                            pa = [x for x in (a, b) if isinstance(x, ast.Name) and x.id in params]
+                            if pa and mentions_store(a if pa[0] is b else b):
+                                why.append(f"the guard `{U(n.test)[:100]}` recognises a repeated input by object identity (`is`)")
+                        if any(isinstance(x, ast.Call) and U(x.func) == "id" and x.args and isinstance(x.args[0], ast.Name) and x.args[0].id in params
+                               for side in (a, b) for x in ast.walk(side)):
+                            why.append(f"the guard `{U(n.test)[:100]}` recognises a repeated input by id()")
+    return why
+
+
+def identity_memo_obligations(prog, rule, rels):
+    """One obligation per source file: no function or method remembers a result keyed on the identity of a mutable argument
+    (module-level `global` state or an attribute of the receiver)."""
+    from ..model import iter_functions
+    out = []
+    for rel_ in rels:
+        mi = prog.module(rel_)
+        hits, n_fn, n_memo = [], 0, 0
+        for qn, fn in iter_functions(mi.tree):
+            n_fn += 1
+            globs = {g for st in ast.walk(fn) if isinstance(st, ast.Global) for g in st.names}
+            holder = fn.args.args[0].arg if "." in qn and fn.args.args and not any(U(d) == "staticmethod" for d in fn.decorator_list) else None
+            attrs = set()
+            if holder is not None:
+                attrs = {t.attr for st in ast.walk(fn) if isinstance(st, ast.Assign) for t in st.targets
+                         if isinstance(t, ast.Attribute) and isinstance(t.value, ast.Name) and t.value.id == holder}
+            for stores, h in ((globs, None), (attrs, holder)):
+                if stores:
+                    n_memo += 1
+                    for w in _identity_memo_hits(fn, stores, h):
+                        hits.append((fn.lineno, qn, w))
+        msg = ""
+        if hits:
+            line, qn, w = hits[0]
+            msg = (f"{qn}: {w}; an array edited in place between two calls is the same object with other data, and the result "
+                   f"computed for the old data is returned for it")
+        out.append(struct_ob(rule, rel_, not hits, msg, rel_, hits[0][0] if hits else 0,
+                             slots={"functions_scanned": n_fn, "with_remembered_state": n_memo, "hits": len(hits)}, tier="E"))
+    ex = ast.parse("def f(x):\n    global _c\n    if _c is not None and _c[0]() is x:\n        return _c[1]\n    r = x.sum()\n"
+                   "    _c = (ref(x), r)\n    return r\n").body[0]
+    if len(_identity_memo_hits(ex, {"_c"}, None)) < 1:
+        raise AnalysisError("identity-memo lint lost its positive example")
     return out
 
 
@@ -523,7 +661,7 @@ def _scalar_attr(prog, path):
                         vals.append(st.value)
     def scalar(v):
         if isinstance(v, ast.Constant):
-            return isinstance(v.value, (int, float, bool, str)) or v.value is None
+            return isinstance(v.value, (int, float, bool, str))
         if isinstance(v, ast.Attribute) and v.attr in ("size", "ndim"):
             return True
         if isinstance(v, ast.Call) and U(v.func) in ("len", "int", "float", "bool", "str"):
@@ -531,6 +669,8 @@ def _scalar_attr(prog, path):
         if isinstance(v, ast.BinOp):
             return scalar(v.left) and scalar(v.right)
         return False
+    # a None placeholder says nothing about what is stored later
+    vals = [v for v in vals if not (isinstance(v, ast.Constant) and v.value is None)]
     return bool(vals) and all(scalar(v) for v in vals)
 
 
